@@ -1,26 +1,36 @@
 """C14 – saving never loses the last good save; failed saves and loads leave no residue.
 
-Implementation side: a small model is saved repeatedly (directory and zip format, backups on) to
-one path; with `mxh.faults.Injector` every primitive file operation of a save (the unlink/rmdir
-calls of the rmtree of the oldest generation, the renames of the rotation, mkdir, every open for
-writing, the pickle dump, every ZipFile write/close, the final move, the clean-up of the
-temporary directory) is taken in turn as the point of failure.  After each attempt the slots
-`path, path_BAK1 .. path_BAK4` are classified as absent / good <format> <generation> / partial
-<format>: a slot is *good g* iff its file tree (names and contents; members for an archive) is
-equal to a reference save of generation g made with no fault.
+Implementation side: a model is saved repeatedly (directory and zip format, backups on) to one
+path.  The models (`MODEL_KINDS`) include ones that own IO data files with relative paths - module
+sources (`new_module`), csv and Excel files written by pandas (`new_pandas`), a workbook kept by
+openpyxl (`new_excel_range`) - so that `IOManager.write_ios`, the work directory of a zip save,
+`ziputil.archive_dir` / `copy_file` (file -> archive, with its GH82 retry loop) and, on load,
+`copy_file` (archive -> file) run.  With `mxh.faults.Injector` every primitive file operation of a
+save (the unlink/rmdir calls of the rmtree of the oldest generation, the renames of the rotation,
+mkdir, every open for writing, the pickle dump, every ZipFile write/close, the final move, the
+clean-up of the temporary directory) is taken in turn as the point of failure, under fault *policies*:
+the error is an OSError, a PermissionError or a FileNotFoundError, and it is transient (that one
+operation fails) or persistent (every further attempt at the same operation on the same file fails
+too) - so the retry loops and `except` clauses see both an error they absorb and one they must give
+up on.  After each attempt the slots `path, path_BAK1 .. path_BAK4` are classified as absent /
+good <format> <generation> / partial <format>: a slot is *good g* iff its file tree (names and
+contents, IO data files included; members for an archive; a workbook member by member without its
+time stamp) is equal to a reference save of generation g made with no fault.
 
-Correspondence: the same sequence (format, sizes counted from the implementation's own
-operation trace, fault index) is given to the Lean model (`mxdriver backup`, theorems in
-Props/C14.lean); the outcome (raised or not), the rotation/writer plan (which slot is removed,
-which renames in which order, where the move happens) and all slots are compared.
+Correspondence: the same sequence (format, the writer's operation kinds read off the implementation's
+own operation trace, fault index, fault policy) is given to the Lean model (`mxdriver backup`,
+theorems in Props/C14.lean); the outcome (raised or not), the rotation/writer plan (which slot is
+removed, which renames in which order, where the move happens, which operations sit under a handler)
+and all slots are compared.
 
 Oracle (implementation only): the statement – after any save, interrupted or not, the most
-recent complete copy is intact (and loadable, with the right values) at the path or at the first
-backup and no complete copy that existed was lost; generations are in order, nothing beyond
-_BAK3; no slot ever holds a partial file; the registry and the `serializing` flags are as before,
-no temporary directory is left; a failed load (damaged saves of both formats, every file missing
-/ garbage / truncated; faults at every read operation) leaves the registry as it was; a later
-save and load work.
+recent complete copy is intact (and loadable, with the right values, module functions and pandas /
+Excel data included) at the path or at the first backup and no complete copy that existed was lost; a
+save that reports success has put the complete new generation at the path; generations are in order,
+nothing beyond _BAK3; no slot ever holds a partial file; the registry and the `serializing` flags are
+as before, no temporary directory is left; a failed load (damaged saves of both formats, every file
+missing / garbage / truncated; faults at every read operation, under the same policies) leaves the
+registry as it was; a later save and load work.
 """
 import hashlib
 import io
@@ -590,16 +600,18 @@ ALL_POLICIES = [("os", "once"), ("os", "persist"), ("perm", "once"), ("perm", "p
 def choose_policies(ctx, entry, tok, rng, after_move=False):
     """the ways the chosen operation fails: always a transient OSError; where the calling code has a
     handler (zipfile's file-mode retry, copy_file's GH82 loop, shutil.move, TemporaryDirectory) every
-    combination of error class and persistence; elsewhere a sample (thorough: every combination)"""
-    if ctx.tier == "thorough" or tok in SENSITIVE:
+    combination of error class and persistence; elsewhere one more combination, drawn (quick: for a third
+    of the operations)"""
+    if tok in SENSITIVE:
         pols = list(ALL_POLICIES)
         # (a FileNotFoundError in tempdir.cleanup() is ignored by TemporaryDirectory: standard library,
         # not modelled - the class is not injected there)
         if not after_move and rng.random() < (1.0 if ctx.tier == "thorough" else 0.15):
             pols.append(("notfound", "once"))
     else:
+        # no handler around the operation: whatever is raised propagates
         pols = [("os", "once")]
-        if rng.random() < 0.35:
+        if ctx.tier == "thorough" or rng.random() < 0.35:
             pols.append(rng.choice(ALL_POLICIES[1:] + ([] if after_move else [("notfound", "persist")])))
     return [(e, pl) for e, pl in pols if policy_allowed(entry, tok, e, pl)]
 
@@ -1145,7 +1157,8 @@ def run(ctx, out):
             stats["corpus_cases"] += 1
         # 1. saves: for each program the corpus histories, then generated ones
         if ctx.tier == "thorough":
-            progs = [(k, li) for li in (False, True) for k in MODEL_KINDS]
+            progs = [("nested", False), ("flat", True), ("mixed", False), ("pandas", True), ("module", False),
+                     ("excel", True), ("nested", True), ("flat", False)]
         else:
             # one plain model each way, the model with every kind of IO data, one of the single-kind ones
             progs = [("nested", False), ("flat", True), ("mixed", False),
@@ -1155,16 +1168,17 @@ def run(ctx, out):
             if kind in IO_KINDS:
                 hists = [h for i, h in enumerate(CORPUS_IO) if ctx.tier == "thorough" or kind == "mixed" or i == 0]
                 if ctx.tier == "thorough":
-                    hists += CORPUS
+                    hists += CORPUS[1:2] + CORPUS[3:4]
             else:
                 hists = [h for i, h in enumerate(CORPUS) if ctx.tier == "thorough" or (i + pi) % 3 == 0 or
                          (pi == 0 and i in (0, 2))]
-            for i in range(n_random):
+            for i in range(n_random if kind not in IO_KINDS else ctx.n(2, 4)):
                 r = ctx.rng("hist", kind, log_input, i)
                 hists.append(gen_history(r, r.randrange(1, 7)))
             for h in hists:
                 spec = {"type": "save", "model": kind, "log_input": log_input, "hist": h}
                 _run_spec(ctx, spec, out, stats, lines, tmp, worlds, lworlds, rng)
+                stats["save_histories:" + kind] += 1
                 programs.add(repr((kind, log_input, h)))
                 stats["save_histories"] += 1
                 stats["hist_len:%d" % len(h)] += 1
